@@ -117,7 +117,7 @@ def main():
             orig = open(path).read()
             open(path, 'w').write(orig[:m['pos']] + m['rep'] + orig[m['end']:])
             t0 = time.time()
-            rc, out = sh(f"cd {repo} && timeout 300 cargo test --workspace --no-fail-fast --offline --target-dir {scratch}/suite-target 2>&1 | grep -E '^test result|^error' ", timeout=400)
+            rc, out = sh(f"cd {repo} && timeout 300 cargo test --workspace --no-fail-fast --offline --target-dir {scratch}/suite-target 2>&1 | grep -E '^test result|^error(\\[E|: could not compile)' ", timeout=400)
             lines = [l for l in out.splitlines() if l.startswith('test result')]
             if any(l.startswith('error') for l in out.splitlines()) or not lines:
                 status = 'does-not-compile'
